@@ -29,6 +29,9 @@
 #ifndef NSYM
 #define NSYM 100
 #endif
+#ifndef NCANDSYM
+#define NCANDSYM 2
+#endif
 #ifndef CALLERKEYS
 #define CALLERKEYS 0
 #endif
@@ -113,7 +116,7 @@ static void do_enqueue(int callerkey)
          * at 4 slots only; 3 and 4 live in the neighbouring slots (probe sequences run into them);
          * the last one has the top bit set.  (home slot = (key * 11400714819323198485) >> (64 - bits)) */
         static const uint64_t cand[7] = { 1, 56, 90, 6, 3, 4, UINT64_C(0x8000000000000001) };
-        key = cand[sym_choice(7, "candkey")];
+        key = cand[(nsh * 2 + sym_choice(nsh < NCANDSYM ? 4 : 1, "candkey")) % 7];   /* the first NCANDSYM entries pick among 4 candidates */
         for (int j = 0; j < nsh; j++) if (sh[j].live) sym_assume(sh[j].key != key);
         if (removed_key != 0) sym_tag("reinserted", key == removed_key);
     } else if (callerkey) {
